@@ -397,6 +397,7 @@ def run(ctx):
     mm = ctx.fn1("Oomd::Fs::readMinMaxLowHighFromLines")
     lits = [nn.get("v", "") for nn in mm.nodes if nn["k"] == "lit" and nn.get("lk") == "str"]
     ctx.check("max" in lits, "max-grammar-parser", "value-shape", mm.loc(), "the shared parser recognises the literal 'max'", "shared parser has no 'max' case")
+    readdir_does_not_follow_links(ctx, "C15")
     # readDirFromDIR sibling agreement (shared with C10)
     rd = ctx.fn1("Oomd::Fs::readDirFromDIR")
     fl = Flow(P, rd, cg=cg)
